@@ -589,6 +589,21 @@ Definition res_slots (s : state) (v : value) : list aid :=
   | VObj j => match nth_error (ob s) j with Some o => oslots o | None => [] end
   | VNone => []
   end.
+(* the caller buffers a result may be made of (everything else in a result is a new buffer): a plane keeps the arrays it
+   is constructed from, fit_tilt may return (a plane on) the input's arrays, insert / dft2(out=) return the buffer they
+   were given, a spectrum keeps its constructor arrays and spectrum-by-number arithmetic keeps the operand's wave array *)
+Definition may_alias (s : state) (o : op) : list aid :=
+  let arr r := match getarr s r with Some a => [a] | None => [] end in
+  match o with
+  | OPlane _ amp opd _ _ => (match amp with Some r => arr r | None => [] end) ++ (match opd with Some r => arr r | None => [] end)
+  | OFitTilt p _ => match getobj s p with Some (_, ob) => oslots ob | None => [] end
+  | OInsert _ r => arr r
+  | ODft2 _ _ (Some r) _ _ => arr r
+  | OSpec w v => arr w ++ arr v
+  | OSpecScalar r => match getobj s r with Some (_, Spec w _) => [w] | _ => [] end
+  | _ => []
+  end.
+
 (* calls documented to hand back a plane of their own: copy, rescale/resample, fit_tilt(inplace=False) of a non-Image plane *)
 Definition makes_new_plane (s : state) (o : op) : bool :=
   match o with
